@@ -134,6 +134,59 @@ def backtest_windows(fast, route_tf='5m', data_tf='15m', n=200):
     return None
 
 
+def partial_fill_scenario():
+    """a limit order filled inside the LAST minute of a 5m / 15m window: the series seen from the fill hook (and afterwards)
+    must still be one candle per started window, each the aggregation of its minutes"""
+    from jesse import research
+    from jesse.strategies import Strategy
+    for fill_minute in (29, 27, 44):
+        n = 90
+        rows = []
+        for i in range(n):
+            base = 100.0 + (i % 7) * 0.1
+            low = 84.0 if i == fill_minute else base - 0.5
+            rows.append([TS0 + i * 60000, base, base + 0.05, base + 0.6, low, 5.0 + i % 3])
+        arr = np.array(rows)
+        bad = []
+
+        def check(self, where):
+            c1 = self.get_candles('Sandbox', 'BTC-USDT', '1m')
+            for tf, cnt in (('5m', 5), ('15m', 15)):
+                c = self.get_candles('Sandbox', 'BTC-USDT', tf)
+                if len(c) != -(-len(c1) // cnt):
+                    bad.append(f'{where}: {tf} has {len(c)} candles although {-(-len(c1) // cnt)} windows have started ({len(c1)} minutes)')
+                    return
+                for j in range(len(c)):
+                    w = c1[j * cnt:(j + 1) * cnt]
+                    if not np.allclose(c[j], np.array(K.agg(np.array(w)))):
+                        bad.append(f'{where}: {tf} candle {j} = {c[j].tolist()} but the aggregation of its minutes = {np.array(K.agg(np.array(w))).tolist()}')
+                        return
+
+        class S(Strategy):
+            def should_long(self): return self.index == 0
+            def should_short(self): return False
+            def should_cancel_entry(self): return False
+            def go_long(self): self.buy = 1, 85.0
+            def go_short(self): pass
+
+            def on_open_position(self, order):
+                if not bad:
+                    check(self, f'in on_open_position after a fill in minute {fill_minute}')
+
+            def before(self):
+                if not bad:
+                    check(self, f'before() at step {self.index} (fill in minute {fill_minute})')
+        cfg = {'starting_balance': 10000, 'fee': 0, 'type': 'futures', 'futures_leverage': 2, 'futures_leverage_mode': 'cross',
+               'exchange': 'Sandbox', 'warm_up_candles': 0}
+        for fast in (False, True):
+            research.backtest(cfg, [{'exchange': 'Sandbox', 'strategy': S, 'symbol': 'BTC-USDT', 'timeframe': '5m'}],
+                              [{'exchange': 'Sandbox', 'symbol': 'BTC-USDT', 'timeframe': '15m'}],
+                              {'Sandbox-BTC-USDT': {'exchange': 'Sandbox', 'symbol': 'BTC-USDT', 'candles': arr.copy()}}, fast_mode=fast)
+            if bad:
+                return f'{"fast" if fast else "normal"} simulator, {bad[0]}'
+    return None
+
+
 def replay(pl):
     ob = pl['obligation']
     rng = random.Random(pl.get('seed', 0))
@@ -145,6 +198,11 @@ def replay(pl):
             d = get_candles_scenarios(tf, rng)
             if d:
                 break
+        if not d and ob.startswith('partial'):
+            try:
+                d = partial_fill_scenario()
+            except Exception as ex:
+                d = f'backtest raised {type(ex).__name__}: {ex}'
     elif ob.startswith('min-step'):
         failing = (pl.get('info') or {}).get('failing') or []
         combos = [tuple(f[0]) for f in failing if isinstance(f, list) and f and isinstance(f[0], list) and len(f[0]) == 2] or [('30m', '45m')]
